@@ -43,6 +43,11 @@ func init() {
 		}})
 	register(&simk.Prop{ID: "C03", Level: "exploration", Rule: e2Rule + "; focus: failing actions at any operation index, exact fee deduction, sponsor balances at/below the fee", Real: e2Real, Stub: e2Stub,
 		Exec: func(r *simk.Run) *simk.Violation {
+			if r.C.Intn(5) == 0 {
+				// the builder half: a transaction the builder leaves out of the block (it does not fit, it
+				// fails admission at build time) must leave no trace -- no fee, no effect -- in the built state
+				return buildScenario(r, "C03", 0.8)
+			}
 			return runBlock(r, focus{prop: "C03", headerFaults: 0.01, txFaults: 0.02, permFaults: 0.15, failOps: 0.45, tightUnits: 0.02, bigCosts: 0.02, dupTx: 0.0, maxTxs: 4})
 		}})
 	register(&simk.Prop{ID: "C05", Level: "exploration", Rule: e2Rule + "; focus: every op under every declared permission subset, undeclared keys, size-suffix twins; the complete post-state dump must differ from the parent only on declared keys", Real: e2Real, Stub: e2Stub,
@@ -78,11 +83,15 @@ func init() {
 		Rule: e2Rule + "; focus: every transaction signs a maximum fee in {0, 1, fee-1, fee, fee+1, max} relative to the fee it is charged at the block's unit prices; three parties are judged: block verification (Processor.Execute), the builder (BuildBlock from a mempool holding such a tx) and mempool admission (PreExecutor.PreExecute at the simulated current time)",
 		Real: append([]string{"chain.PreExecutor", "chain.Builder"}, e2Real...), Stub: e2Stub,
 		Exec: func(r *simk.Run) *simk.Violation {
-			switch r.C.Intn(4) {
+			switch r.C.Intn(5) {
 			case 0:
 				return c07Admission(r)
 			case 1:
 				return c07Builder(r)
+			case 2:
+				// what the builder charges must be what verification charges: a transaction left out of a
+				// full block must not have been charged at all
+				return buildScenario(r, "C07", 0.8)
 			}
 			return runBlock(r, focus{prop: "C07", headerFaults: 0, txFaults: 0.02, permFaults: 0.05, failOps: 0.1, maxFeeFaults: 0.7, maxTxs: 4})
 		}})
